@@ -1,40 +1,40 @@
 import IndicatorVerif.Proofs.Ring
 /-
   C17 — ring buffer = bounded FIFO that overwrites its oldest element; search tree = multiset.
-  Ring part: for every capacity ≥ 1 and every history of put/get/at/isFull/isEmpty the
-  observations are those of the list specification `Ring.specStep`.
+  RingBuf part: for every capacity ≥ 1 and every history of put/get/at/isFull/isEmpty the
+  observations are those of the list specification `RingBuf.specStep`.
   (Search-tree part: Props/C17 `bst_*`, see Proofs/Bst.lean.)
 -/
 namespace C17
 
 /-- every history on a new ring of any capacity ≥ 1 is a history of the bounded FIFO -/
-theorem ring_refines_fifo {α : Type} (zero : α) (cap : Nat) (hcap : 0 < cap) (ops : List (Ring.Op α)) :
-    Ring.run (Ring.new zero cap) ops = Ring.specRun cap [] ops :=
-  Ring.run_new_refines zero cap hcap ops
+theorem ring_refines_fifo {α : Type} (zero : α) (cap : Nat) (hcap : 0 < cap) (ops : List (RingBuf.Op α)) :
+    RingBuf.run (RingBuf.new zero cap) ops = RingBuf.specRun cap [] ops :=
+  RingBuf.run_new_refines zero cap hcap ops
 
 /-- put on a full ring returns the displaced oldest element and keeps the newest `cap` elements -/
-theorem ring_put {α : Type} (r : Ring α) (x : α) (h : Ring.Inv r) :
+theorem ring_put {α : Type} (r : RingBuf α) (x : α) (h : RingBuf.Inv r) :
     (r.put x).1.toList = (if r.isFull then r.toList.tail else r.toList) ++ [x] ∧
     (r.isFull = true → some (r.put x).2 = r.toList.head?) :=
-  ⟨(Ring.put_spec r x h).2, Ring.put_returns_oldest r x h⟩
+  ⟨(RingBuf.put_spec r x h).2, RingBuf.put_returns_oldest r x h⟩
 
 /-- get returns the oldest element -/
-theorem ring_get {α : Type} (r : Ring α) (h : Ring.Inv r) (y : α) (ys : List α) (hl : r.toList = y :: ys) :
+theorem ring_get {α : Type} (r : RingBuf α) (h : RingBuf.Inv r) (y : α) (ys : List α) (hl : r.toList = y :: ys) :
     (r.get).2 = some y ∧ (r.get).1.toList = ys :=
-  ⟨((Ring.get_spec r h).2 y ys hl).1, ((Ring.get_spec r h).2 y ys hl).2.1⟩
+  ⟨((RingBuf.get_spec r h).2 y ys hl).1, ((RingBuf.get_spec r h).2 y ys hl).2.1⟩
 
 /-- positional reads count from the oldest element -/
-theorem ring_at {α : Type} (r : Ring α) (i : Nat) (hi : i < r.count) :
-    r.atIdx i = r.toList[i]'(by simpa [Ring.toList] using hi) :=
-  Ring.atIdx_eq r i hi
+theorem ring_at {α : Type} (r : RingBuf α) (i : Nat) (hi : i < r.count) :
+    r.atIdx i = r.toList[i]'(by simpa [RingBuf.toList] using hi) :=
+  RingBuf.atIdx_eq r i hi
 
-theorem ring_flags {α : Type} (r : Ring α) (h : Ring.Inv r) :
+theorem ring_flags {α : Type} (r : RingBuf α) (h : RingBuf.Inv r) :
     (r.isFull = true ↔ r.toList.length = r.buffer.length) ∧ (r.isEmpty = true ↔ r.toList = []) := by
-  refine ⟨?_, Ring.isEmpty_iff r h⟩
-  rw [Ring.toList_length]; exact Ring.isFull_iff r h
+  refine ⟨?_, RingBuf.isEmpty_iff r h⟩
+  rw [RingBuf.toList_length]; exact RingBuf.isFull_iff r h
 
 /-! non-vacuity: a concrete history on a concrete ring (capacity 2): put 1, put 2, put 3, get -/
-example : Ring.run (Ring.new (0 : Nat) 2) [.put 1, .put 2, .put 3, .get, .isFull, .at 0]
+example : RingBuf.run (RingBuf.new (0 : Nat) 2) [.put 1, .put 2, .put 3, .get, .isFull, .at 0]
     = [.displaced none, .displaced none, .displaced (some 1), .got (some 2), .flag false, .value (some 3)] := by
   decide
 
